@@ -61,6 +61,33 @@ for node in ast.parse(src).body:
             res.append((node.name, "OK" if ok else "MISMATCH", None if ok else (got, want)))
         except Exception as e:
             res.append((node.name, "EVAL-ERR", type(e).__name__, str(e)[:80]))
+# ---- while loops: the last-iteration summary, instantiated at the real state before the last iteration, must reproduce the real result
+def _while_check():
+    f = ctx.engine.func("bluebonnet.idioms:i_while_newton")
+    outs = [o for o in ctx.engine.run_paths(f, lambda: ([x], {}), pc=[]) if o.kind == "return"]
+    if len(outs) != 1:
+        res.append(("i_while_newton", "paths selected", len(outs))); return
+    o = outs[0]
+    W = o.heap["ghost"]["while_loops"][0]
+    for xv in (0.7, -3.3):
+        r_, err_, trace = 1.0, 1.0, []
+        while abs(err_) > 1e-9:
+            trace.append((r_, err_))
+            err_ = r_ * r_ - xv * xv - 2.0
+            r_ = r_ - err_ / (2 * r_)
+        env = {"x": xv, W["havoc"]["r"].args[0]: trace[-1][0], W["havoc"]["err"].args[0]: trace[-1][1]}
+        got = tm.feval(o.value, env, {})
+        pc_ok = all(tm.feval(c, env, {}) for c in o.pc)
+        want = real.i_while_newton(xv)
+        # and at an EARLIER iteration the exit condition must be false (the summary may not claim the loop stops there)
+        env0 = {"x": xv, W["havoc"]["r"].args[0]: trace[0][0], W["havoc"]["err"].args[0]: trace[0][1]}
+        early = all(tm.feval(c, env0, {}) for c in o.pc)
+        ok = pc_ok and abs(got - want) <= 1e-12 and not early
+        res.append(("i_while_newton", "OK" if ok else "MISMATCH", None if ok else (got, want, pc_ok, early)))
+try:
+    _while_check()
+except Exception as e:
+    res.append(("i_while_newton", "EVAL-ERR", type(e).__name__, str(e)[:120]))
 mism = [r for r in res if "MISMATCH" in r]
 noeval = [r for r in res if "OK" not in r and "MISMATCH" not in r]
 print(f"selftest: {len(res)} comparisons, {len(res) - len(mism) - len(noeval)} agree with CPython/numpy, {len(noeval)} not evaluable by this harness (uninterpreted sums / extrema / quantified flags), {len(mism)} MISMATCH")
